@@ -28,7 +28,8 @@ Inductive op :=
 | ODelete (key : pstr)
 | ODeleteList (names : list pstr)
 | OSetVisible (ks : list pstr) (b : bool)                           (* card.select(k1).select(k2)....visible = b *)
-| OSetFolded (ks : list pstr) (b : bool).
+| OSetFolded (ks : list pstr) (b : bool)
+| OSetTitle (ks : list pstr) (t : pstr).                            (* card.select(k1)....title = t *)
 
 Inductive outcome :=
 | Done                                    (* returned normally *)
@@ -115,6 +116,11 @@ Definition run_op (o : op) (c : card) : card * outcome :=
       | Ok (p, _) => (set_data c (update_path p (set_folded b) (data c)), Done)
       | Raise e => (c, Failed e)
       end
+  | OSetTitle ks t =>
+      match chain_select ks (data c) with
+      | Ok (p, _) => (set_data c (update_path p (set_title t) (data c)), Done)
+      | Raise e => (c, Failed e)
+      end
   end.
 
 (* the card after a sequence of operations, with the outcome of each *)
@@ -130,17 +136,18 @@ Definition run_card (ops : list op) (c : card) : card := fst (run ops c).
 Inductive action :=
 | AAdd (p : list pstr) (new : section)
 | ADel (p : list pstr)
-| AUpd (p : list pstr) (vis : option bool) (fold : option bool).
+| AUpd (p : list pstr) (vis : option bool) (fold : option bool) (ttl : option pstr).
 
-Definition upd_fun (vis fold : option bool) (x : section) : section :=
+Definition upd_fun (vis fold : option bool) (ttl : option pstr) (x : section) : section :=
   let x1 := match vis with Some b => set_visible b x | None => x end in
-  match fold with Some b => set_folded b x1 | None => x1 end.
+  let x2 := match fold with Some b => set_folded b x1 | None => x1 end in
+  match ttl with Some t => set_title t x2 | None => x2 end.
 
 Definition apply_action (a : action) (d : dict) : dict :=
   match a with
   | AAdd p new => add_path p new d
   | ADel p => match delete_path p d with Some d' => d' | None => d end
-  | AUpd p vis fold => update_path p (upd_fun vis fold) d
+  | AUpd p vis fold ttl => update_path p (upd_fun vis fold ttl) d
   end.
 Definition apply_actions (acts : list action) (d : dict) : dict :=
   fold_left (fun acc a => apply_action a acc) acts d.
